@@ -225,6 +225,8 @@ def correspond(ctx):
     rt_part(ctx, c, ctx.n(36, 270))
     probe_part(ctx, c)
     alongside_part(ctx, c)
+    generic_probe_part(ctx, c, 'clockseq', 'clockseq_out', K.gen_clockseq, K.clockseq_expected,
+                       (('nrt', ctx.n(24, 240)), ('rt', ctx.n(12, 96))), 'kth_resume_time', 'clock state changes then resumptions')
     c.rule = ('script programs (nested routines, yields, sends, tempo changes, plays across SystemClock/AppClock/TempoClocks) compiled to real '
               'generator functions; NRT: exact comparison of the whole event log (logical seconds and beats at every resumption, play instants, '
               'stamped bundles), of the score and of elapsed_time() with the model of the repaired behaviour, disagreements classified by the '
